@@ -83,6 +83,9 @@ def log_greedy_steps(log: list):
     orig = pr.GreedyRewritePatternApplier.match_and_rewrite
 
     def wrapped(self, op, rewriter):
+        if len(log) > 3000:
+            # (harness-side guard) the greedy driver keeps rewriting: an observable outcome of the pass, like an exception
+            raise RuntimeError("the greedy pattern driver performed more than 3000 rewrites on one module (no fixed point)")
         top = top_of(op)
         if getattr(self, "dce_enabled", False) and is_trivially_dead(op):
             before = text(top)
